@@ -664,15 +664,14 @@ impl<Left: Executor, Right: Executor> Executor for MergeJoin<Left, Right> {
 
     fn next(&mut self) -> RuntimeResult<Option<Row>> {
         if self.emitting_unmatched_right {
-            while self.unmatched_right_idx < self.right_matched.len() {
-                let idx = self.unmatched_right_idx;
-                self.unmatched_right_idx += 1;
-
-                if !self.right_matched[idx] && idx < self.right_buffer.len() {
-                    let row = nulls_with_right(&self.right_buffer[idx], self.left_cols());
-                    self.stats.rows_produced += 1;
-                    return Ok(Some(row));
-                }
+            // The left input has ended: every right row not yet consumed has no partner.
+            // (Rows consumed earlier were either buffered for an equal left key, hence matched,
+            // or emitted as unmatched when they were skipped.)
+            if let Some(right_row) = self.current_right.take() {
+                let row = nulls_with_right(&right_row, self.left_cols());
+                self.advance_right()?;
+                self.stats.rows_produced += 1;
+                return Ok(Some(row));
             }
             return Ok(None);
         }
@@ -795,6 +794,13 @@ impl<Left: Executor, Right: Executor> Executor for MergeJoin<Left, Right> {
                     self.left_matched = false;
                 }
                 Ordering::Greater => {
+                    // The right row sorts before every remaining left row: it has no partner.
+                    if matches!(self.join_type, JoinType::Right | JoinType::Full) {
+                        let row = nulls_with_right(right_row, self.left_cols());
+                        self.advance_right()?;
+                        self.stats.rows_produced += 1;
+                        return Ok(Some(row));
+                    }
                     self.advance_right()?;
                 }
                 Ordering::Equal => {
